@@ -260,7 +260,7 @@ PROPS = {
         'steps': [{'script': 'corr_graph.py', 'timeout': 1500, 'timeout_thorough': 6000},
                   {'script': 'corr_plan.py', 'timeout': 1500, 'timeout_thorough': 6000},
                   {'script': 'oracle_c19.py', 'timeout': 1500, 'timeout_thorough': 6000}],
-        'required_theorems': ['C19_step_is_local_to_its_subgraph', 'C19_opcode_table_only_grows',
+        'required_theorems': ['C19_instructions_are_generated_per_subgraph', 'C19_generated_and_transformed_as_if_alone', 'C19_step_is_local_to_its_subgraph', 'C19_opcode_table_only_grows',
                               'C19_tensor_info_is_per_subgraph',
                               'C19_result_depends_on_own_instructions_only',
                               'C19_subgraph_transformed_as_if_it_stood_alone',
